@@ -1,5 +1,34 @@
+//! Engine E3 `lib-mon`: generated-input monitors over the utility crates
+//! (`gmsol-utils`, `gmsol-chainlink-datastreams`, `gmsol-solana-utils`) with exact oracles.
+//!
+//! `lib-mon <ID> [--tier quick|thorough] [--replay file] [--miri summary.json]`
+//!
+//! The same per-case check functions are used by the `#[test]` mini workloads at the bottom of
+//! each module (`miri_c26_*`, `miri_c27_*`, `miri_c28_*`, `miri_c34_*`), which `miri.sh` runs under
+//! `cargo +nightly miri test`.
+mod c26;
+mod c27;
+mod c28;
+mod c34;
+mod c41;
+pub mod miri;
+pub mod util;
+
 fn main() {
     let args = vcommon::Args::parse();
-    eprintln!("no monitor for {}", args.id);
-    std::process::exit(2);
+    let code = match args.id.as_str() {
+        "C26" => Some(c26::run(&args)),
+        "C27" => Some(c27::run(&args)),
+        "C28" => Some(c28::run(&args)),
+        "C34" => Some(c34::run(&args)),
+        "C41" => Some(c41::run(&args)),
+        _ => None,
+    };
+    match code {
+        Some(c) => std::process::exit(c),
+        None => {
+            eprintln!("lib-mon: no monitor for {}", args.id);
+            std::process::exit(2)
+        }
+    }
 }
